@@ -25,10 +25,14 @@ def main() -> int:
         return 2
     try:
         if a.replay:
-            if not hasattr(mod, "replay"):
-                print(f"{prop}: replay not supported", file=sys.stderr)
-                return 2
             doc = json.loads(open(a.replay).read())
+            if not hasattr(mod, "replay"):
+                # no automatic re-execution for this property: show the recorded case, which names the exact
+                # input, what the real code did and what the model / property say
+                print(f"{prop}: recorded case (re-run `./check {prop}` with VERIF_SEED={doc.get('seed')} to reproduce):")
+                print(json.dumps({k: doc.get(k) for k in ("kind", "stream", "input", "impl", "model", "spec", "note", "unchecked")},
+                                 indent=1, ensure_ascii=False, default=str)[:8000])
+                return 1 if doc.get("kind") == "impl-violates-spec" else 2
             return int(mod.replay(doc))
         return int(mod.run(a.tier))
     except core.InfraError as e:
